@@ -220,17 +220,19 @@ def static(ROOT, REPO, tier):
     seq, broken = stop_order_check(ROOT)
     cov['stop_order'] = seq
     if broken:
-        # a concrete failing "input" of the static half: the order of the operations in server.Stop
+        # The order theorem no longer checks. Since registration and recording of a connection check exitChan
+        # themselves (repairs 1d02d65, 9fa9d46), a different order need not break the property: whether a run
+        # really fails is decided by the stress probes below (each failing run is reported as its own violation
+        # with its replay); the broken obligation alone is reported without a failing input.
         rp = os.path.join(ROOT, 'replays', 'C15-stop-order.txt')
         with open(rp, 'w') as f:
             f.write('; property C15 (Stop returns after closing all listeners and connections ...) fails on the source:\n')
             f.write('; order of the operations in the body of stopOnce.Do (Gen/StopOrder.v): %s\n' % ' '.join(seq or []))
             for b in broken:
                 f.write('; offending order: %s\n' % b)
-            f.write('; theorem C15_stop_order of Props/C15.v no longer checks\n'
-                    '; replay: stress -probe stop-vs-late-connect (a client that completes CONNECT between the snapshot and\n'
-                    ';         the closing of the listener is online after Stop has returned)\n')
-        violations.append(('oracle', rp, ''))
+            f.write('; theorem C15_stop_order of Props/C15.v no longer checks: the Stop theorems of Props/C15.v are about a model whose order is no longer the order of the source\n'
+                    '; related probes: stress -probe stop-vs-late-connect, stop-vs-inflight-accept, stop-during-connect\n')
+        violations.append(('proof', rp, ' no-failing-input-found'))
     exe, race, err = build_stress(ROOT, notes)
     cov['stress_race_detector'] = race
     if exe is None:
